@@ -37,6 +37,11 @@ structure St where
   lines  : Nat := 0
   mism   : Nat := 0
   misses : Nat := 0
+  -- rendering caches for the server snapshot (a device string is recomputed only when an op can touch it)
+  devC   : Std.HashMap Nat String := {}
+  histC  : Array String := #[]
+  rrC    : String := ""
+  rrN    : Nat := 0
 
 def mkV (o : Std.HashMap String Bool) (dflt : Bool) : Verify :=
   fun k m s => (o.get? (hexOfBytes k ++ "|" ++ hexOfBytes m ++ "|" ++ hexOfBytes s)).getD dflt
@@ -77,6 +82,70 @@ def report (st : St) (what model impl : String) : IO St := do
 def sameObs (model obs : String) : Bool :=
   if obs.startsWith "#" then ("#" ++ hex64 (fnv64 model)) == obs else model == obs
 
+/-- Signature checks the model will consult for an operation; every one of them must have an oracle row. -/
+def needed (s : State) : Op → List (Key × Bytes × Bytes)
+  | .dgram _ d =>
+    if d.length < 80 then [] else
+    match Report.decode (d.take 80) with
+    | none => []
+    | some r => match FMap.get s.devices r.id with
+      | none => []
+      | some dv => [(dv.auth.key, Report.signingBytes r, r.sig)]
+  | .register k sig => if s.gcaAvail then [] else [(s.tempKey, Registration.signingBytes k, sig)]
+  | .authorize a => if s.gcaAvail then [(s.gcaKey, Auth.signingBytes a, a.sig)] else []
+  | .authServer a => if a.loc.length > 255 then [] else [(s.gcaKey, AuthServer.signingBytes a, a.sig)]
+  | .migrate m => (s.gcaKey, Migration.signingBytes m, m.sig) ::
+      m.servers.filterMap (fun a => if a.loc.length > 255 then none else some (m.newGCA, AuthServer.signingBytes a, a.sig))
+  | .restart _ _ =>
+    let gk := match s.disk.gcaKey with | some k => if k.length = 32 then k else zeros 32 | none => zeros 32
+    s.disk.auths.map (fun a => (gk, Auth.signingBytes a, a.sig)) ++
+    s.disk.reports.filterMap (fun r => (s.disk.auths.find? (fun a => a.id == r.id)).map
+      (fun a => (a.key, Report.signingBytes r, r.sig)))
+  | _ => []
+
+/-- Device ids whose rendering an operation can change; `none` = all of them. -/
+def touched : Op → Option (List Nat)
+  | .dgram _ d => some (match Report.decode (d.take 80) with | some r => [r.id] | none => [])
+  | .authorize a => some [a.id]
+  | .impact id _ _ => some [id]
+  | .register _ _ | .stats _ | .sync _ | .authServer _ | .migrate _ => some []
+  | _ => none
+
+def refresh (st : St) (old : State) (op : Option Op) : St :=
+  let s := st.srv
+  let devC := match op.bind touched with
+    | some ids => ids.foldl (fun (c : Std.HashMap Nat String) id => match FMap.get s.devices id with
+        | some d => c.insert id (dev id d)
+        | none => c.erase id) st.devC
+    | none => s.devices.foldl (fun (c : Std.HashMap Nat String) p => c.insert p.1 (dev p.1 p.2)) {}
+  let histC := if s.history.length == st.histC.size && op.isSome then st.histC
+    else if s.history.length == st.histC.size + 1 && op.isSome then
+      match s.history.getLast? with | some w => st.histC.push (week w) | none => st.histC
+    else (s.history.map week).toArray
+  let (rrC, rrN) :=
+    if op.isSome && s.recentR.length == old.recentR.length then (st.rrC, st.rrN)
+    else if op.isSome && s.recentR.length == st.rrN + 1 && st.rrN == old.recentR.length then
+      match s.recentR.getLast? with
+      | some r => ((if st.rrN == 0 then "" else st.rrC ++ ",") ++ hexOfBytes (Report.encode r), st.rrN + 1)
+      | none => (st.rrC, st.rrN)
+    else (joinWith "," (s.recentR.map (fun r => hexOfBytes (Report.encode r))), s.recentR.length)
+  { st with devC := devC, histC := histC, rrC := rrC, rrN := rrN }
+
+/-- Same text as `Canon.snapshot`, assembled from the caches. -/
+def snapshotC (st : St) : String :=
+  let s := st.srv
+  let devs := (natSort (s.devices.map (·.1))).filterMap (fun id => st.devC.get? id)
+  let short := sortStrings (s.shortIds.map (fun p => s!"{hx p.1}:{p.2}"))
+  let migs := sortStrings (s.migs.map (fun p => s!"{hx p.1}:{hx (Migration.encode p.2)}"))
+  joinWith "|" [
+    s!"off={s.off}", s!"avail={if s.gcaAvail then 1 else 0}", s!"gca={hx s.gcaKey}",
+    s!"bans={joinWith "," ((natSort s.bans).map toString)}",
+    s!"devs={joinWith ";" devs}", s!"short={joinWith "," short}",
+    s!"hist={joinWith "#" st.histC.toList}",
+    s!"rr={st.rrC}",
+    s!"ra={joinWith "," (s.recentA.map (fun a => hexOfBytes (Auth.encode a)))}",
+    s!"servers={hx (AuthServer.encodeList s.servers)}", s!"migs={joinWith "," migs}"]
+
 def handleSrv (st : St) (kind : String) (a : Args) (obs : String) : IO St := do
   match kind with
   | "srv.cfg" =>
@@ -85,15 +154,11 @@ def handleSrv (st : St) (kind : String) (a : Args) (obs : String) : IO St := do
     let r := boot st.cfg (mkV st.oracle false) noSign (argHex a "temp") (argHex a "fresh") (argNat a "now")
     match r with
     | some s =>
-      let st := { st with srv := s, srvUp := true }
+      let st := refresh { st with srv := s, srvUp := true } {} none
       if obs != "ok" then report st kind "ok" obs else return st
     | none => if obs != "fail" then report st kind "fail" obs else return st
-  | "srv.adopt" =>
-    -- start from a given disk image (crash-state enumeration): fields as in Canon.disk are not parsed back;
-    -- the harness instead replays the history and names the crash point (see srv.crash)
-    return st
   | "srv.snap" =>
-    let m := snapshot st.srv
+    let m := snapshotC st
     if sameObs m obs then return st else report st kind m obs
   | "srv.disk" =>
     let m := disk st.srv.disk
@@ -102,12 +167,14 @@ def handleSrv (st : St) (kind : String) (a : Args) (obs : String) : IO St := do
     match srvOp kind a with
     | none => report st kind "unparsable-op" obs
     | some op =>
-      let (s1, o1) := step st.cfg (mkV st.oracle false) noSign st.srv op
-      let (s2, o2) := step st.cfg (mkV st.oracle true) noSign st.srv op
-      let st := if s1 != s2 || o1 != o2 then { st with misses := st.misses + 1 } else st
-      if s1 != s2 || o1 != o2 then
+      let missing := (needed st.srv op).filter (fun (k, m, sg) =>
+        !(st.oracle.contains (hexOfBytes k ++ "|" ++ hexOfBytes m ++ "|" ++ hexOfBytes sg)))
+      let st := if missing.isEmpty then st else { st with misses := st.misses + 1 }
+      if !missing.isEmpty then
         IO.println s!"ORACLE-MISS line={st.lines} {kind}"
-      let st := { st with srv := s1 }
+      let old := st.srv
+      let (s1, o1) := step st.cfg (mkV st.oracle false) noSign st.srv op
+      let st := refresh { st with srv := s1 } old (some op)
       -- observed: "<out>" optionally followed by " #<hash of snapshot after the op>"
       let (obsOut, obsHash) := match obs.splitOn " #" with
         | [x, h] => (x, some ("#" ++ h))
@@ -117,7 +184,7 @@ def handleSrv (st : St) (kind : String) (a : Args) (obs : String) : IO St := do
       match obsHash with
       | none => return st
       | some h =>
-        let m := snapshot s1
+        let m := snapshotC st
         if sameObs m h then return st else report st (kind ++ ":state-after") ("#" ++ hex64 (fnv64 m)) h
 
 /-! Small stateless families -/
